@@ -146,7 +146,7 @@ Section WorldTerm.
       pose proof (run_cc_sync_no_patch _ _ _ _ _ _ Er _ He2) as Hp. discriminate Hp.
     - destruct (w_ctl w) as [m|]; [inversion H; subst; destruct He|].
       unfold construct in H.
-      destruct (bootstrap_ccs [] (w_ccs w) outs) as [m1 fx] eqn:Eb.
+      destruct (bootstrap_ccs [] (with_default dp (w_ccs w)) outs) as [m1 fx] eqn:Eb.
       match type of H with context [occupy_nodes po lab ?m3 ?ns] => destruct (occupy_nodes po lab m3 ns) as [m4 pan] end.
       inversion H; subst. cbn [ob_fx] in He.
       pose proof (bootstrap_no_patch _ _ _ _ _ Eb _ He) as Hp. discriminate Hp.
